@@ -236,6 +236,8 @@ Set Printing Width 100000000. Set Printing Depth 100000000.
 def ciop(op):
     if op[0] == "share":
         return "IShare %d %s %s" % (op[1], clist("%d%%nat" % i for i in op[2]), clist("%d%%nat" % i for i in op[3]))
+    if op[0] == "graft":
+        return "IGraft %d %s" % (op[1], clist("%d%%nat" % i for i in op[2]))
     return "IBase (%s)" % cop(op)
 
 
